@@ -199,8 +199,11 @@ class Gen:
             name = self.pick_var(scope, t)
             flags = rng.below(10)
             e = self.expr(t, scope, 2)
-            st = S("var", name=name, expr=e, default=flags == 0, glob=flags == 1 and ctx != "root")
-            if not (flags == 0):
+            both = flags == 2 and ctx != "root" and rng.chance(0.5)     # `!default !global` together
+            st = S("var", name=name, expr=e, default=flags == 0 or both, glob=(flags == 1 and ctx != "root") or both)
+            if both:
+                pass        # may or may not assign, and only the global: nothing becomes certainly defined here
+            elif not (flags == 0):
                 scope.add(name.replace("_", "-"))
             elif name.replace("_", "-") in scope:
                 pass
@@ -227,11 +230,29 @@ class Gen:
         if k < 68 and depth < 3 and self.loop_depth < 2:
             self.loop_depth += 1
             self.control_depth += 1
-            if rng.chance(0.6):
+            shape = rng.below(10)
+            if shape < 5:
                 var = self.pick_var(scope, "n", 0.6)
                 e = self.expr("l", scope, 1)
                 body = self.body(scope | {var}, ctx, rng.range(1, 3), depth + 1)
                 st = S("each", vars=[var], expr=e, body=body)
+            elif shape < 7:
+                # destructuring over a list of lists: every item has at least two elements (the two typed variables are
+                # always numbers); a third variable is `null` for the shorter items and is only ever inspected
+                v1, v2 = self.pick_var(scope, "n", 0.6), self.pick_var(scope, "n", 0.8)
+                xv = self.fresh("x") if rng.chance(0.5) else None
+                items = []
+                for _ in range(rng.range(1, 3)):
+                    k = rng.range(2, 4)
+                    items.append(("list", [self.expr("n", scope, 0) for _ in range(k)], rng.choice(["space", "space", "comma"]), rng.chance(0.2)))
+                outer_sep = "comma" if any(i[2] == "comma" and not i[3] for i in items) or rng.chance(0.7) else "space"
+                if outer_sep == "space" and len(items) == 1:
+                    outer_sep = "comma"
+                e = ("list", items, outer_sep, rng.chance(0.15))
+                body = self.body(scope | {v1, v2}, ctx, rng.range(1, 2), depth + 1)
+                if xv and self.allow_diag:
+                    body.insert(0, S("debug", expr=("var", xv)))
+                st = S("each", vars=[v1, v2] + ([xv] if xv else []), expr=e, body=body)
             else:
                 kv, vv = self.pick_var(scope, "s", 0.7), self.pick_var(scope, "n", 0.7)
                 e = self.expr("m", scope, 1)
@@ -301,8 +322,36 @@ class Gen:
         rest = self.fresh("lrest-") if rng.chance(0.25) else None
         return ps, rest, names | ({rest} if rest else set())
 
+    def gen_recursive_func(self, scope):
+        """self-recursive function of one number: bounded by a guard on the argument (<= 0 or > 6 ends the recursion)"""
+        rng = self.rng
+        name = self.fresh("fn-")
+        pn = self.fresh("np-")
+        inner = scope | {pn}
+        self.call_depth += 2           # no further calls inside (keeps the executed-statement count bounded)
+        base = self.expr("n", inner, 1)
+        step = self.expr("n", inner, 0)
+        self.call_depth -= 2
+        guard = ("bin", "or", ("bin", "<=", ("var", pn), ("num", 0.0, "")), ("bin", ">", ("var", pn), ("num", 6.0, "")))
+        body = [S("if", clauses=[(guard, [S("return", expr=base)])], els=None)]
+        if self.allow_diag and rng.chance(0.4):
+            body.append(S("debug", expr=("var", pn)))
+        if rng.chance(0.4):
+            # a local of the same name in every activation: activations must not share frames
+            loc = self.fresh("n")
+            body.append(S("var", name=loc, expr=("bin", "*", ("var", pn), ("num", 2.0, "")), default=False, glob=False))
+            step = ("bin", "+", step, ("var", loc))
+        rec = ("call", name, [("bin", "-", ("var", pn), ("num", float(rng.choice([1, 1, 2, 1.5])), ""))], [], None)
+        order = rng.chance(0.5)
+        body.append(S("return", expr=("bin", rng.choice(["+", "-"]), rec if order else step, step if order else rec)))
+        st = S("func", name=name, params=[(pn, None)], rest=None, body=body)
+        self.funcs.append((name, "n", [(pn, "n", False)], None))
+        return st
+
     def gen_func(self, scope):
         rng = self.rng
+        if rng.chance(0.12):
+            return self.gen_recursive_func(scope)
         ret = rng.choice(["n", "n", "s", "b"])
         ps, rest, names = self.gen_params(scope)
         name = self.fresh("fn-")
